@@ -176,10 +176,15 @@ def e2e_layout(rng, B, nmsgs, final_nl=True, long_lines=False, first_undated=0, 
         lines.append(b"preamble without timestamp " + b"u" * rng.choice([0, 3, B // 2]) + b"\n")
         dated.append(False)
     if safe_head:
-        # two short one-line messages first: block-zero analysis accepts such a file at every block size >= 64
-        for _ in range(2):
+        # two one-line messages first: block-zero analysis accepts such a file at every block size >= 64
+        # (each is complete within the first block); now and then they are padded to end exactly on byte 63 / 127
+        for j in range(2):
             k += 1
-            lines.append(ts_for(k) + b" head\n")
+            ln = ts_for(k) + b" head"
+            if rng.random() < 0.4:
+                want = 64 if j == 0 else rng.choice([64, 26])
+                ln += b"." * max(0, want - len(ln) - 1)
+            lines.append(ln + b"\n")
             dated.append(True)
     targets = relative_lengths(B)
     if long_lines:
@@ -209,4 +214,28 @@ def e2e_layout(rng, B, nmsgs, final_nl=True, long_lines=False, first_undated=0, 
             lines[-1] = lines[-1][:-1]
         if not lines[-1]:
             lines[-1] = b"x"
+    return Layout(lines, dated)
+
+
+def boundary_layout(rng, B, first_lines=1, nmsgs=25):
+    """The first `first_lines` one-line messages together end exactly on the last byte of a block of size B; the next
+    line starts on byte 0 of the following block and is longer than a block."""
+    lines, dated = [], []
+    k = 0
+    remaining = B
+    for j in range(first_lines):
+        k += 1
+        ln = ts_for(k) + b" first"
+        want = remaining if j == first_lines - 1 else max(len(ln) + 1, remaining // (first_lines - j))
+        ln += b"." * max(0, want - len(ln) - 1)
+        lines.append(ln + b"\n")
+        dated.append(True)
+        remaining -= len(lines[-1])
+    for m in range(nmsgs):
+        k += 1
+        head = ts_for(k) + b" msg=%d " % m
+        want = rng.choice([B + 22, 2 * B + 1, 150, 3 * B]) if m < 2 else rng.choice([30, 45, B, B + 1, 2 * B])
+        head += b"h" * max(0, want - len(head) - 1)
+        lines.append(head + b"\n")
+        dated.append(True)
     return Layout(lines, dated)
